@@ -468,6 +468,27 @@ def proof_stage(res, prop, extra_targets=(), drivers=()):
         broken.append('%s: the code of %s differs (beyond comments and white space) from the version the model and proofs of %s '
                       'were reviewed against' % (aname, ', '.join(changed) if changed else 'an anchor file', prop))
     names = names + [aname]
+    # thorough tier: the toolchain's independent re-checker replays every module of the property's import closure
+    # (and the anchor theorem's) through the kernel again, from the compiled .olean files
+    if res.tier == 'thorough' and ok:
+        import concurrent.futures
+        mods = []
+        for f in import_closure([module, amod]):
+            rel = os.path.relpath(f, LEAN)[:-5].replace('/', '.')
+            if rel.startswith('YaclibModel.'):
+                mods.append(rel)
+
+        def _chk(m):
+            rc, out, err = sh(['lake', 'env', 'leanchecker', m], cwd=LEAN)
+            return m, rc, (out + err)[-300:]
+        failed = []
+        with Lock('lake'):
+            with concurrent.futures.ThreadPoolExecutor(max_workers=8) as ex:
+                for m, rc, txt in ex.map(_chk, mods):
+                    if rc != 0:
+                        failed.append('%s: %s' % (m, txt.replace('\n', ' ')))
+        res.coverage['leanchecker'] = {'modules_rechecked': len(mods), 'rejected': failed}
+        broken += ['leanchecker rejects ' + x for x in failed]
     # T2c: supporting files (include closure of the anchors) are trusted base, not obligations: a change there makes the
     # checks run their extended failing-input search and is recorded, but is not by itself reported
     try:
